@@ -7,7 +7,18 @@ import random
 from penman.model import Model
 from penman.models import amr as _amr, noop as _noop
 
-from pmon.ref.model import RefModel
+from pmon.ref.model import RefModel, RefInvModel
+
+
+class InvModel(Model):
+    """A user subclass of Model with its own inversion convention (':inv-ROLE').  Everything
+    the library does with inverted roles is documented to go through these two methods."""
+
+    def is_role_inverted(self, role):
+        return role.startswith(':inv-')
+
+    def invert_role(self, role):
+        return ':' + role[5:] if role.startswith(':inv-') else ':inv-' + role[1:]
 
 MINI = {
     'roles': {':ARG0': {}, ':ARG1': {}, ':accompanier': {}, ':domain': {}, ':consist-of': {},
@@ -98,6 +109,8 @@ def _fresh(name, spec):
                      normalizations=_amr.normalizations, reifications=_amr.reifications)
     if name == 'noop':
         return _noop.NoOpModel()
+    if name == 'inv':
+        return InvModel()
     return from_spec(spec, name)[0]
 
 
@@ -123,6 +136,8 @@ def _get(name):
     elif name == 'noop':
         m = _noop.model
         e = (name, m, RefModel(noop=True, name=name), None)
+    elif name == 'inv':
+        e = (name, InvModel(), RefInvModel(name=name), None)
     elif name == 'mini':
         m, rm = from_spec(MINI, name)
         e = (name, m, rm, MINI)
